@@ -37,3 +37,51 @@ Definition check_roots (c : roots_case) : bool :=
 Definition bad {A} (chk : A -> bool) (cs : list (N * A)) : list N :=
   map fst (filter (fun c => negb (chk (snd c))) cs).
 Definition bad_roots := bad check_roots.
+
+(* ---- C10 / C11 cases *)
+Notation hop := BinaryModel.hop.
+Notation hobs := (@BinaryModel.hobs bytes).
+Inductive bcase :=
+| CProve (leaves : list bytes) (i : N) (res : option (bytes * list bytes))
+| CVerify (root data : bytes) (proof : list bytes) (i n : N) (verdict : bool)
+| CHistory (ops : list hop) (obs : list hobs).
+
+Fixpoint list_eqb {A} (eqb : A -> A -> bool) (a b : list A) : bool :=
+  match a, b with
+  | [], [] => true
+  | x :: a', y :: b' => eqb x y && list_eqb eqb a' b'
+  | _, _ => false
+  end.
+
+Definition proof_res_eqb (a b : option (bytes * list bytes)) : bool :=
+  match a, b with
+  | None, None => true
+  | Some (r1, p1), Some (r2, p2) => bytes_eqb r1 r2 && list_eqb bytes_eqb p1 p2
+  | _, _ => false
+  end.
+
+Definition hobs_eqb (a b : hobs) : bool :=
+  match a, b with
+  | OUnit, OUnit => true
+  | ORoot r1 c1, ORoot r2 c2 => bytes_eqb r1 r2 && (c1 =? c2)
+  | OProof p1, OProof p2 => proof_res_eqb p1 p2
+  | OLoad b1, OLoad b2 => Bool.eqb b1 b2
+  | _, _ => false
+  end.
+
+Definition check_bcase (c : bcase) : bool :=
+  match c with
+  | CProve leaves i res =>
+      match m_tree_of leaves with
+      | Some t => match m_prove node_sum t i with Some r => proof_res_eqb r res | None => false end
+      | None => false
+      end
+  | CVerify root data proof i n verdict =>
+      Bool.eqb (verify leaf_sum node_sum bytes_eqb root data proof i n) verdict
+  | CHistory ops obs =>
+      match m_run leaf_sum node_sum empty_sum tree_new ops with
+      | Some obs' => list_eqb hobs_eqb obs obs'
+      | None => false
+      end
+  end.
+Definition bad_bcases := bad check_bcase.
